@@ -647,8 +647,12 @@ _public_ int m_mod_start(m_mod_t *mod) {
     M_MOD_ASSERT_STATE(mod, M_MOD_IDLE | M_MOD_STOPPED);
     M_MOD_CONSUME_TOKEN(mod);
     
-    int ret = start(mod, true);
-    M_MOD_BOUND(m_mod_start);
+    int ret;
+    /* Keep the module alive: its callbacks may deregister it */
+    M_MEM_LOCK(mod, {
+        ret = start(mod, true);
+        M_MOD_BOUND(m_mod_start);
+    });
     return ret;
 }
 
@@ -656,8 +660,12 @@ _public_ int m_mod_pause(m_mod_t *mod) {
     M_MOD_ASSERT_STATE(mod, M_MOD_RUNNING);
     M_MOD_CONSUME_TOKEN(mod);
     
-    int ret = stop(mod, false);
-    M_MOD_BOUND(m_mod_pause);
+    int ret;
+    /* Keep the module alive: its callbacks may deregister it */
+    M_MEM_LOCK(mod, {
+        ret = stop(mod, false);
+        M_MOD_BOUND(m_mod_pause);
+    });
     return ret;
 }
 
@@ -665,8 +673,12 @@ _public_ int m_mod_resume(m_mod_t *mod) {
     M_MOD_ASSERT_STATE(mod, M_MOD_PAUSED);
     M_MOD_CONSUME_TOKEN(mod);
     
-    int ret = start(mod, false);
-    M_MOD_BOUND(m_mod_resume);
+    int ret;
+    /* Keep the module alive: its callbacks may deregister it */
+    M_MEM_LOCK(mod, {
+        ret = start(mod, false);
+        M_MOD_BOUND(m_mod_resume);
+    });
     return ret;
 }
 
@@ -674,8 +686,12 @@ _public_ int m_mod_stop(m_mod_t *mod) {
     M_MOD_ASSERT_STATE(mod, M_MOD_RUNNING | M_MOD_PAUSED);
     M_MOD_CONSUME_TOKEN(mod);
     
-    int ret = stop(mod, true);
-    M_MOD_BOUND(m_mod_stop);
+    int ret;
+    /* Keep the module alive: its callbacks may deregister it */
+    M_MEM_LOCK(mod, {
+        ret = stop(mod, true);
+        M_MOD_BOUND(m_mod_stop);
+    });
     return ret;
 }
 
